@@ -14,7 +14,7 @@ INFO = {
 }
 
 
-def h_dt(f, N1, ext, same=False):
+def h_dt(f, N1, ext, same=False, period=None):
     f = T(f)
     vs = sorted(variables(f))
     h = hor(f)
@@ -23,8 +23,8 @@ def h_dt(f, N1, ext, same=False):
         A = env.A
         w2 = dt.trace(env, vs, N1 + ext)
         w1 = {v: w2[v][:N1] for v in vs}
-        s1 = dt.make_spec('offline~', 'out = ' + text(f), vs)
-        s2 = s1 if same else dt.make_spec('offline~', 'out = ' + text(f), vs)     # same: one object evaluates the growing trace
+        s1 = dt.make_spec('offline~', 'out = ' + text(f), vs, period=period)
+        s2 = s1 if same else dt.make_spec('offline~', 'out = ' + text(f), vs, period=period)     # same: one object evaluates the growing trace
         r1 = [p[1] for p in dt.offline(s1, w1, N1)]
         r2 = [p[1] for p in dt.offline(s2, w2, N1 + ext)]
         env.observe('short', r1)
@@ -133,6 +133,14 @@ def obligations(tier, rng):
         h = hor(g)
         for e in (2, 4):
             out.append(ob('C16', 'dt', 'dt/units/%s/N1=%d+%d' % (txt, h + 2, e), f=g, N1=h + 2, ext=e))
+    # a sampling period coarser than the unit the bounds are written in: the NUMBER written as a bound is larger than the bound in samples,
+    # and the trace grows from below that number to above it (a bound must only ever be compared with a trace length in samples)
+    for txt, f in [('(x) since[0:10] (y)', ('since_t', X, Y, 0, 2)), ('once[0:10](x)', ('once_t', X, 0, 2)), ('historically[5:10](x)', ('historically_t', X, 1, 2)),
+                   ('eventually[0:10](x)', ('eventually_t', X, 0, 2)), ('always[5:10](x)', ('always_t', X, 1, 2)), ('(x) until[0:10] (y)', ('until_t', X, Y, 0, 2)),
+                   ('(x) unless[5:10] (y)', ('unless_t', X, Y, 1, 2))]:
+        g = ('raw', txt, f)
+        for N1, e in ([(7, 5)] if quick else [(7, 5), (4, 8), (9, 2)]):
+            out.append(ob('C16', 'dt', 'dt/coarse-period/%s/P=5s/N1=%d+%d' % (txt, N1, e), f=g, N1=N1, ext=e, period=[5, 's'], wall=600))
     # ONE specification object evaluating first the trace and then its extension (the usual way of monitoring a growing log)
     for f in f1:
         if quick and not (refsem.has_future(f) or f[0] in ('once', 'historically', 'since', 'prev', 'rise', 'once_t', 'since_t')):
